@@ -9,6 +9,7 @@ that file in which, inside those functions only,
           (*VERIF_PTR(n, &(E)))
   (b) every call `f(args)` of a non-builtin function becomes
           (verif_sync(n), f(args))
+  (b') every loop gets `verif_sync` before it and at the end of its body, `verif_resnap` at the start of its body
   (c) every `return E;` becomes
           return ({ T verif_rv = (E); verif_sync(n); verif_rv; });   (T = the declared return type)
       every `return;` becomes `{ verif_sync(n); return; }` and a void function
@@ -147,6 +148,11 @@ def collect_locals(fn):
     return ids - statics
 
 
+def is_const(decl):
+    qt = decl.get('type', {}).get('qualType', '')
+    return qt.startswith('const ') and '*' not in qt or qt.rstrip().endswith('const') or '[' in qt
+
+
 def shimmed_names():
     hdr = os.path.join(os.path.dirname(os.path.dirname(os.path.abspath(__file__))), 'rt', 'verif_atomic_shim.h')
     return set(re.findall(r'^#define\s+(\w+)\(', open(hdr).read(), re.M))
@@ -254,9 +260,16 @@ def weave_function(fn, path, src, edits, counter, census, loops=None):
         edits.append((r[0], 0, depth, PRE + '(*VERIF_PTR(%d, &(' % n + POST))
         edits.append((r[1], 1, -depth, PRE + ')))' + POST))
 
+    scope = [[c.get('name') for c in fn.get('inner', []) if c.get('kind') == 'ParmVarDecl' and c.get('name') and not is_const(c)
+              and '*' not in c.get('type', {}).get('qualType', '')]]  # pointer parameters keep designating the same object
+
     def rec(n, depth):
         k = n.get('kind')
         inner = n.get('inner', []) or []
+        if k == 'CompoundStmt':
+            scope.append([])
+        if k == 'VarDecl' and n.get('name') and n.get('storageClass') != 'static' and not is_const(n):
+            scope[-1].append(n['name'])
         if k == 'ImplicitCastExpr' and n.get('castKind') == 'LValueToRValue':
             wrap_access(inner[0], depth)
         elif k in ('BinaryOperator', 'CompoundAssignOperator') and n.get('opcode', '').endswith('=') \
@@ -335,7 +348,15 @@ def weave_function(fn, path, src, edits, counter, census, loops=None):
             edits.append((lb, 0, -30000, PRE + '{ verif_sync(%d); ' % s1 + POST))
             edits.append((le, 1, 30000, PRE + ' }' + POST))
             edits.append((be - 1, 0, -20000, PRE + 'verif_sync(%d);' % (s1 + 1) + POST))
+            # start of every iteration: the snapshot equals the current state (a no-op in a real execution, where the previous
+            # iteration ended with a sync; it re-establishes that fact after a loop contract's havoc)
+            edits.append((b + 1, 1, 25000, PRE + ' verif_resnap(%d);' % s1 + POST))
             clause = (loops or {}).get(str(ordinal))
+            if clause and '$LOCALS' in clause:
+                # every non-const local visible at the loop head may be assigned by the loop (keeps the frame robust against
+                # harmless refactors that hoist or add locals)
+                vis = [v for sc in scope for v in sc]
+                clause = clause.replace('$LOCALS', ', '.join(vis) if vis else 'G')
             if clause:
                 edits.append((b, 0, -30000, PRE + ' ' + clause + ' ' + POST))
                 stats.setdefault('loop_contracts', []).append(ordinal)
@@ -353,6 +374,8 @@ def weave_function(fn, path, src, edits, counter, census, loops=None):
             if isinstance(c, dict):
                 c['_parent'] = k
             rec(c, depth + 1)
+        if k == 'CompoundStmt':
+            scope.pop()
 
     rec(body, 0)
     stats['loops'] = loopno[0]
